@@ -11,6 +11,8 @@ Proof.
   - lia.
   - f_equal; lia.
   - lia.
+  - f_equal; lia.
+  - lia.
 Qed.
 
 Lemma seg_eqb_eq x y : seg_eqb x y = true <-> x = y.
@@ -94,12 +96,13 @@ Definition wf_link (l : link) : Prop :=
   match l with
   | LNum _ => True
   | LIp a b c d => 0 <= a <= 255 /\ 0 <= b <= 255 /\ 0 <= c <= 255 /\ 0 <= d <= 255
+  | LText _ => False
   end.
 Definition wf_seg (s : seg) : Prop := 0 < fst s /\ wf_link (snd s).
 
 Lemma print_link_free l : wf_link l -> free_of c_slash (print_link l).
 Proof.
-  destruct l as [n|a b c d]; simpl; intros H.
+  destruct l as [n|a b c d|t]; simpl; intros H; [| |contradiction].
   - apply print_int_free; reflexivity.
   - destruct H as (Ha & Hb & Hc & Hd).
     repeat (first [apply free_app | apply Forall_cons; [reflexivity|] | (apply dec_free; [lia | reflexivity])]).
@@ -120,7 +123,7 @@ Qed.
 
 Lemma parse_print_link l : wf_link l -> parse_link (print_link l) = Some l.
 Proof.
-  destruct l as [n|a b c d]; simpl; intros H.
+  destruct l as [n|a b c d|t]; simpl; intros H; [| |contradiction].
   - unfold parse_link. rewrite print_parse_int. reflexivity.
   - destruct H as (Ha & Hb & Hc & Hd). unfold parse_link.
     destruct (dec_spec a) as (Da & Na & Ua); [lia|].
@@ -179,4 +182,14 @@ Proof.
     + destruct (dec (fst s)); discriminate.
     + destruct (dec (fst s)); discriminate.
   - rewrite <- E. rewrite split_print_route by (auto; discriminate). apply pair_up_print. exact H.
+Qed.
+
+(* the kind of a link is part of it: an address string on the wire never matches a configured numeric link or dotted quad,
+   whatever it spells ("0" is not 0) *)
+Lemma accept_link_kind p q t l rest : (forall t', l <> LText t') ->
+  accept (Some ((p, l) :: rest)) (Some ((q, LText t) :: rest)) = false.
+Proof.
+  intros Hl. unfold accept. cbn [path_eqb]. unfold seg_eqb; cbn [fst snd].
+  destruct l as [n|a b c d|t']; cbn [link_eqb]; [rewrite andb_false_r; reflexivity | rewrite andb_false_r; reflexivity |].
+  exfalso. apply (Hl t'). reflexivity.
 Qed.
